@@ -101,6 +101,15 @@ def _id_and_index_names(tree) -> dict:
                         out[te.id] = "motif id"
             if isinstance(t, ast.Name) and isinstance(it, ast.Attribute) and it.attr in ("motif_id", "_motif_id", "motif_ids", "_motif_ids"):
                 out[t.id] = "motif id"
+        # a (low, high) degree bound unpacked from the configuration: the support minimum may be 0
+        if isinstance(n, ast.Assign) and len(n.targets) == 1 and isinstance(n.targets[0], (ast.Tuple, ast.List)) and all(isinstance(e, ast.Name) for e in n.targets[0].elts) \
+                and ("LOW_HIGH_DEGREE_BOUND" in txt(n.value) or "_low_high_degree_bound" in txt(n.value)) and not isinstance(n.value, (ast.Tuple, ast.List)):
+            for e in n.targets[0].elts:
+                out[e.id] = "degree bound (a support minimum / maximum)"
+        if isinstance(n, (ast.For, ast.comprehension)) and isinstance(n.target, (ast.Tuple, ast.List)) and all(isinstance(e, ast.Name) for e in n.target.elts) \
+                and isinstance(n.iter, (ast.Attribute, ast.Subscript)) and ("LOW_HIGH_DEGREE_BOUND" in txt(n.iter) or "_low_high_degree_bound" in txt(n.iter)):
+            for e in n.target.elts:
+                out[e.id] = "degree bound (a support minimum / maximum)"
         if isinstance(n, ast.Assign) and len(n.targets) == 1 and isinstance(n.targets[0], ast.Name) and isinstance(n.value, ast.Call):
             f = n.value.func
             nm = f.attr if isinstance(f, ast.Attribute) else (f.id if isinstance(f, ast.Name) else "")
@@ -287,6 +296,21 @@ def run(ctx):
                     if kind:
                         found = True
                         o.violated(f, node, f"{how}, but `{ident}` is {kind}: the legitimate value 0 is treated as \"not given\"", sure=True)
+                    elif isinstance(node, ast.BoolOp) and isinstance(ident, str) and ident in params:
+                        # `p or <non-empty default>` on a CONTAINER parameter: the empty list / dict the caller passes on purpose is replaced
+                        a_ = next((x for x in f.node.args.posonlyargs + f.node.args.args + f.node.args.kwonlyargs if x.arg == ident), None)
+                        ann = txt(a_.annotation) if a_ is not None and a_.annotation is not None else ""
+                        cont = ann.split("[")[0].split(".")[-1].lower() in ("list", "dict", "set", "tuple", "sequence", "iterable", "mapping", "collection")
+                        if not cont:
+                            cont = any((isinstance(x, ast.Compare) and len(x.ops) == 1 and isinstance(x.ops[0], (ast.In, ast.NotIn)) and isinstance(x.comparators[0], ast.Name) and x.comparators[0].id == ident)
+                                       or (isinstance(x, (ast.For, ast.comprehension)) and isinstance(x.iter, ast.Name) and x.iter.id == ident) for x in ast.walk(f.node))
+                        dflt = node.values[1]
+                        empty_default = (isinstance(dflt, (ast.List, ast.Tuple, ast.Set)) and not dflt.elts) or (isinstance(dflt, ast.Dict) and not dflt.keys) \
+                            or (isinstance(dflt, ast.Call) and txt(dflt.func) in ("list", "dict", "set", "tuple") and not dflt.args and not dflt.keywords)
+                        if cont and not empty_default:
+                            found = True
+                            o.violated(f, node, f"{how}, but `{ident}` is a container parameter ({ann or 'it is iterated / searched'}): the EMPTY one a caller passes on purpose "
+                                                f"is replaced by `{txt(dflt)[:40]}`", sure=True)
         if not found:
             o.holds(None, None, f"{n_sites} truthiness tests on bare names / element filters in {len(mods)} modules; none on a vertex, motif id, index or 0-able bound",
                     construct="falsy-zero scan of " + ", ".join(sorted(m.relpath for m in mods)))
